@@ -111,12 +111,12 @@ def mk_ctx2(props, nsteps=2, step_set=(0, 1, 2), ckinds=(0, 1, 3, 4), xmodes=3, 
     return f
 
 
-def ctx2_params(nsteps=2, nstep_opts=3, nck=4, xmodes=3, nt1=2):
+def ctx2_params(nsteps=2, nstep_opts=3, nck=4, xmodes=3, nt1=2, ho=1):
     nb = len(BLOCKS2) if nsteps == 2 else len(BLOCKS3)
     return ([I("blk0", 0, nb - 1), I("ck0", 0, nck - 1), I("x0", 0, xmodes - 1)]
             + [I("s%d" % i, 0, nstep_opts - 1) for i in range(nsteps)]
             + [I("ck1", 0, nt1 - 1), I("k0", 0, 1), I("k1", 0, 1), I("ov0"), I("ov1"),
-               I("p0"), I("p1"), I("ho", 0, 1), I("v")])
+               I("p0"), I("p1"), I("ho", 0, ho), I("v")])
 
 
 def mk_over3(props, n=3, nested=False):
